@@ -358,7 +358,12 @@ func (f *FieldCopyToGenerator) genListOrMap() *j.Statement {
 				}
 
 				// for k, a := range obj.List
-				g.For(j.List(j.Id("k"), j.Id("a"))).Op(":=").Range().Id(fieldName).BlockFunc(func(g *j.Group) {
+				loopVars := j.List(j.Id("k"), j.Id("a"))
+				if f.getValueField().Message != nil && f.getValueField().Message.IsEmpty && !f.IsNullable {
+					// for k := range obj.List: a message without fields held by value has nothing to read
+					loopVars = j.Id("k")
+				}
+				g.For(loopVars).Op(":=").Range().Id(fieldName).BlockFunc(func(g *j.Group) {
 					if (f.Kind == PrimitiveListKind) || (f.Kind == PrimitiveMapKind) {
 						f.genPrimitiveBody("a", g)
 					} else {
